@@ -35,6 +35,8 @@ const (
 	firstFace = uint64(300)
 	infinity  = uint64(16)
 	nackNoRte = uint64(150)
+
+	minHopDelay = time.Millisecond
 )
 
 // routerNames: deliberately of different lengths; the order of their hashes (which the
@@ -183,6 +185,7 @@ type network struct {
 	advertViolation string         // first advertisement seen with a cost >= infinity
 	adverts         int            // advertisements observed on the wire
 	lastAdvert      map[int][]byte // last advertisement content per router
+	advChanges      map[int]int    // per router: changes of its advertisement since the last settling point
 	lastChange      time.Duration  // last time an advertisement changed or a command was issued
 	counts          map[string]int
 	snapSeen        map[[2]int]bool // (fetcher, owner): prefix data already applied once
@@ -198,6 +201,7 @@ func newNetwork(n int, sched Sched) *network {
 		wake:       make(chan struct{}, 1),
 		flow:       map[string]uint64{},
 		lastAdvert: map[int][]byte{},
+		advChanges: map[int]int{},
 		counts:     map[string]int{},
 		snapSeen:   map[[2]int]bool{},
 	}
@@ -258,12 +262,14 @@ func (nw *network) draw(flow string) uint64 {
 	return splitmix(splitmix(nw.sched.Seed^hashStr(flow)) + k)
 }
 
+// delay of one link hop: 1 ms (so that a request/response loop always advances virtual
+// time) plus the generated per-packet jitter.
 func (nw *network) delay(kind string, from, to int) time.Duration {
 	if nw.sched.MaxDelay <= 0 {
-		return 0
+		return minHopDelay
 	}
 	r := nw.draw(fmt.Sprintf("d/%s/%d/%d", kind, from, to))
-	return time.Duration(r%uint64(nw.sched.MaxDelay+1)) * time.Millisecond
+	return minHopDelay + time.Duration(r%uint64(nw.sched.MaxDelay+1))*time.Millisecond
 }
 
 func (nw *network) dropSync(kind string, from, to int) bool {
@@ -634,7 +640,7 @@ func (nw *network) replyFunc(n *node, inst int, p *pending, path []pathHop) ndn.
 		if p.cb == nil {
 			return nil
 		}
-		d := time.Duration(0)
+		d := minHopDelay / 10
 		for range path {
 			d += nw.delay("data-"+p.kind, n.id, p.src)
 		}
@@ -674,6 +680,7 @@ func (nw *network) observeData(n *node, p *pending, raw []byte) {
 	canon := canonAdvert(adv)
 	if string(nw.lastAdvert[n.id]) != canon {
 		nw.lastAdvert[n.id] = []byte(canon)
+		nw.advChanges[n.id]++
 		nw.lastChange = nw.since()
 	}
 }
